@@ -68,6 +68,8 @@ impl DefaultMetricLogWriter {
             // Append the LF line separator.
             let s = item.to_string() + "\n";
             metric_out.write_all(s.as_ref())?;
+            #[cfg(sentinel_verif)]
+            verif_journal::record(verif_journal::Op::Append(false, s.clone().into_bytes()));
         }
         metric_out.flush()?;
         Ok(())
@@ -106,7 +108,11 @@ impl DefaultMetricLogWriter {
         // Use BigEndian here to keep consistent with DataOutputStream in Java.
         let mut idx_out = self.cur_metric_idx_file.as_ref().unwrap().write().unwrap();
         idx_out.write_all(&time.to_be_bytes())?;
+        #[cfg(sentinel_verif)]
+        verif_journal::record(verif_journal::Op::Append(true, time.to_be_bytes().to_vec()));
         idx_out.write_all(&offset.to_be_bytes())?;
+        #[cfg(sentinel_verif)]
+        verif_journal::record(verif_journal::Op::Append(true, offset.to_be_bytes().to_vec()));
         idx_out.flush()?;
         Ok(())
     }
@@ -121,14 +127,22 @@ impl DefaultMetricLogWriter {
                 let idx_filename = form_metric_idx_filename(filename.to_str().unwrap());
                 match fs::remove_file(filename) {
                     Ok(_) => {
+                        #[cfg(sentinel_verif)]
+                        verif_journal::record(verif_journal::Op::Remove(
+                            filename.to_str().unwrap().to_owned(),
+                        ));
                         logging::info!("[MetricWriter] Metric log file removed in DefaultMetricLogWriter.remove_deprecated_files(), filename: {:?}", filename);
                     }
                     Err(err) => {
                         logging::error!("Failed to remove metric log file in DefaultMetricLogWriter::remove_deprecated_files(), filename: {:?}, error: {:?}", filename, err);
                     }
                 }
+                #[cfg(sentinel_verif)]
+                let verif_idx_filename = idx_filename.clone();
                 match fs::remove_file(idx_filename) {
                     Ok(_) => {
+                        #[cfg(sentinel_verif)]
+                        verif_journal::record(verif_journal::Op::Remove(verif_idx_filename));
                         logging::info!("[MetricWriter] Metric index file removed in DefaultMetricLogWriter.remove_deprecated_files(), filename: {:?}", filename);
                     }
                     Err(err) => {
@@ -179,6 +193,8 @@ impl DefaultMetricLogWriter {
         }
         // Create new metric log file, whether it exists or not.
         let mf = fs::File::create(&filename)?;
+        #[cfg(sentinel_verif)]
+        verif_journal::record(verif_journal::Op::Create(filename.clone()));
         logging::info!(
             "[MetricWriter] New metric log file created, filename {:?}",
             filename
@@ -186,6 +202,8 @@ impl DefaultMetricLogWriter {
 
         let idx_file = form_metric_idx_filename(&filename);
         let mif = fs::File::create(&idx_file)?;
+        #[cfg(sentinel_verif)]
+        verif_journal::record(verif_journal::Op::Create(idx_file.clone()));
         logging::info!(
             "[MetricWriter] New metric log index file created, idx_file {:?}",
             idx_file
@@ -238,5 +256,40 @@ impl DefaultMetricLogWriter {
 
     pub fn new(max_size: u64, max_file_amount: usize) -> Result<DefaultMetricLogWriter> {
         Self::new_of_app(max_size, max_file_amount, config::app_name())
+    }
+}
+
+/// Verification hook (only with `--cfg sentinel_verif`): a per-thread journal of every file
+/// operation the writer issues, in program order.
+#[cfg(sentinel_verif)]
+pub mod verif_journal {
+    use std::cell::RefCell;
+
+    #[derive(Debug, Clone, PartialEq)]
+    pub enum Op {
+        Create(String),
+        Remove(String),
+        /// (is_index_file, bytes) appended to the currently open log / index file
+        Append(bool, Vec<u8>),
+    }
+
+    thread_local! {
+        static JOURNAL: RefCell<Option<Vec<Op>>> = RefCell::new(None);
+    }
+
+    pub fn start() {
+        JOURNAL.with(|j| *j.borrow_mut() = Some(Vec::new()));
+    }
+
+    pub fn take() -> Vec<Op> {
+        JOURNAL.with(|j| j.borrow_mut().take().unwrap_or_default())
+    }
+
+    pub(super) fn record(op: Op) {
+        JOURNAL.with(|j| {
+            if let Some(v) = j.borrow_mut().as_mut() {
+                v.push(op);
+            }
+        });
     }
 }
